@@ -293,17 +293,29 @@ func runC12(c *core.Ctx) error {
 	if ppi := prog.Func(pkgParser, "parser.parsePathItems"); ppi == nil {
 		r3.Undecided("anchor:parsePathItems", "-", "openapi/parser.(*parser).parsePathItems not found")
 	} else {
+		// every call of pathID in the package (the path-key bookkeeping may live in a helper of parsePathItems)
 		var sinks []ssa.Value
-		for _, f := range core.AllFuncs(ppi) {
-			for _, call := range core.Calls(f) {
-				if core.IsCallTo(call.Common(), pkgParser, "pathID") {
-					sinks = append(sinks, call.Common().Args[0])
+		var pathIDCallers []*ssa.Function
+		for _, top := range core.PkgFuncs(prog.SSA, prog.ByPath[pkgParser]) {
+			for _, f := range core.AllFuncs(top) {
+				if f.Name() == "pathID" {
+					continue
+				}
+				has := false
+				for _, call := range core.Calls(f) {
+					if core.IsCallTo(call.Common(), pkgParser, "pathID") {
+						sinks = append(sinks, call.Common().Args[0])
+						has = true
+					}
+				}
+				if has {
+					pathIDCallers = append(pathIDCallers, f)
 				}
 			}
 		}
 		checkFlows(ppi, "argument of pathID", sinks, ppi.Pos())
 		// every path key is entered into the duplicate table before it counts as accepted
-		for _, f := range core.AllFuncs(ppi) {
+		for _, f := range pathIDCallers {
 			for _, call := range core.Calls(f) {
 				if !core.IsCallTo(call.Common(), pkgParser, "pathID") {
 					continue
